@@ -80,17 +80,32 @@ class SYS(Prop):
         import fakesnow
 
         global _FS, _N
-        if _FS is None:
-            _FS = fakesnow.instance.FakeSnow(nop_regexes=[NOP_PATTERN])
+        # a behaviour whose first item is the marker {"k": "_via", "via": "http"} is driven through fakesnow's HTTP server with
+        # the real Snowflake connector (two logins to the shared instance) - C17: "for statements of every kind"
+        http = bool(ops) and ops[0].get("k") == "_via" and ops[0].get("via") == "http"
+        ops = [o for o in ops if o.get("k") != "_via"]
+        if http:
+            import fakesnow.server
+
+            from harness import srv
+
+            fs = fakesnow.server.shared_fs
+        else:
+            if _FS is None:
+                _FS = fakesnow.instance.FakeSnow(nop_regexes=[NOP_PATTERN])
+            fs = _FS
         _N += 1
         phys = {"S1": f"A{_N}", "S2": f"B{_N}"}
         back = {v: k for k, v in phys.items()}
-        setup = _FS.connect("DB1", phys["S1"])
+        setup = fs.connect("DB1", phys["S1"])
         sc = setup.cursor()
         sc.execute(f"create schema if not exists DB1.{phys['S2']}")
         for p in phys.values():
             sc.execute(f"create table DB1.{p}.t (v int)")
-        conns = {c: _FS.connect("DB1", phys["S1"]) for c in ("c1", "c2")}
+        if http:
+            conns = {c: srv.connect("shared", "DB1", phys["S1"]) for c in ("c1", "c2")}
+        else:
+            conns = {c: fs.connect("DB1", phys["S1"]) for c in ("c1", "c2")}
         longcur = {c: conns[c].cursor() for c in conns}
         rescur = {c: conns[c].cursor() for c in conns}       # holds the open result of "sel"; used for nothing else
         probe = {c: conns[c].cursor() for c in conns}
@@ -126,7 +141,8 @@ class SYS(Prop):
                 return {"notable": "select * from vt_no_such_table", "nocol": "select vt_no_such_column from t",
                         "nosch": "select * from db1.vt_no_such_schema.t"}[a["why"]], None
             if k == "nop":
-                return "call vt_refresh()", None
+                # (the server's instance has no no-op patterns: a statement fakesnow itself answers without the engine)
+                return ("alter table t cluster by (v)" if http else "call vt_refresh()"), None
             raise KeyError(k)
 
         def outcome(a, cur):
@@ -242,9 +258,29 @@ class SYS(Prop):
                 cn.rollback()
             except Exception:
                 pass
+        if http:
+            for cn in conns.values():
+                try:
+                    cn.close()
+                except Exception:
+                    pass
         for p in phys.values():
-            _FS.duck_conn.cursor().execute(f"drop schema if exists DB1.{p} cascade")
+            fs.duck_conn.cursor().execute(f"drop schema if exists DB1.{p} cascade")
         return ev
+
+
+class SYSHTTP(SYS):
+    """the same specification; walks only (they are driven twice: over HTTP and in process - core.system_run_http)"""
+
+    def model_checks(self, tier):
+        return [m for m in super().model_checks(tier) if m["name"] == "sys_mc_all"]
+
+    def generations(self, tier, seed):
+        big = tier == "thorough"
+        base = {"Conn": {"c1", "c2"}, "ScriptsUsed": True, "TgtUsed": {"u", "S1", "S2"}, "Feat": {"cur", "ddl", "dml2"},
+                "Devs": set(), "MaxFails": 3, "SampleOneIn": 1}
+        return [dict(name="sys_walks", module="FsSystemGen", mode="walks", depth=14, num=6000 if big else 400, sample=1200 if big else 120,
+                     consts=dict(base, Depth=14))]
 
 
 # ------------------------------------------------------------------------------------------------ attribution
